@@ -936,10 +936,14 @@ func collectRaceLogs(s *Spec, o Options, rec *Rec, prefix string, cases []any) {
 			}
 			sort.Strings(tops)
 			var cs any
+			note := ""
 			if len(cases) > 0 {
-				cs = map[string]any{"batch_first_case": cases[0], "batch_size": len(cases)}
+				// the race log of a child process cannot be attributed to one case of its batch: the first case is stored as
+				// the replay case, the batch size is given in the detail (replay with the -race worker; a race needs its interleaving)
+				cs = cases[0]
+				note = fmt.Sprintf("[reported by a child process that ran a batch of %d cases; the stored case is the first of them]\n", len(cases))
 			}
-			rec.Violate(cs, "data-race", Attrs{"frames": strings.Join(tops, " | ")}, trunc(rp, 5000))
+			rec.Violate(cs, "data-race", Attrs{"frames": strings.Join(tops, " | ")}, note+trunc(rp, 5000))
 		}
 		os.Remove(f)
 	}
